@@ -1,130 +1,319 @@
-"""C01 — rejection ABC returns exactly the best simulated draws, row-consistent."""
+"""C01 — rejection ABC returns exactly the best simulated draws, row-consistent.
+
+One case = a HISTORY: one Rejection instance on which 1-4 consecutive runs are made (sample / infer /
+set_objective + iterate), each with its own objective.  Every run is compared with the model's run on the
+instance as the earlier runs left it (Reject.hagree; by C01_history_runs_are_fresh that is the fresh run) and
+the property's decidable statement is evaluated on every run's result against the record of the draws that
+run consumed (Reject.hok)."""
+import contextlib
+import io
+import math
 import numpy as np
+from functools import partial
 from common import *
 import rejmodels
 from sclient import ScriptedClient
+
+
+def cbig(n):
+    """a nat that may exceed the numeral limit of cnat"""
+    return cnat(n) if int(n) < 4000 else '(N.to_nat %s)' % cn(n)
 
 
 def cdisc(v):
     return 'PInf' if v is None else '(Fin %s)' % cz(v)
 
 
+# ---- a second model family: discrete simulator (Poisson counts), exact matches attainable -------------
+def pois_sim(*params, batch_size=1, random_state=None, width=2, scale=1.5):
+    lam = 0.5
+    for p in params:
+        lam = lam + scale * np.abs(np.asarray(p, dtype=float).reshape(-1, 1))
+    lam = np.broadcast_to(lam, (batch_size, width))
+    return random_state.poisson(lam).astype(float)
+
+
+def pois_disc(s, observed=None, inf_above=None):
+    s = np.asarray(s, dtype=float).reshape(len(s), -1)[:, 0]
+    o = float(np.asarray(observed[0]).reshape(-1)[0])
+    d = np.abs(s - o)
+    if inf_above is not None:
+        d = np.where(d > inf_above, np.inf, d)
+    return d
+
+
+def build_model(cfg):
+    """cfg: dict(kind, two_params, width, levels, inf_above[, obs])"""
+    if cfg.get('kind', 'normal') == 'normal':
+        return rejmodels.build(cfg)
+    import elfi
+    m = elfi.ElfiModel(name='rejp')
+    t1 = elfi.Prior('uniform', -1, 2, model=m, name='t1')
+    params = [t1]
+    if cfg.get('two_params'):
+        t2 = elfi.Prior('normal', t1, 0.5, model=m, name='t2')
+        params.append(t2)
+    w = cfg.get('width', 2)
+    sim = elfi.Simulator(partial(pois_sim, width=w), *params, model=m, name='sim',
+                         observed=np.full((1, w), float(cfg.get('obs', 1))))
+    s1 = elfi.Summary(rejmodels.summ_fn, sim, model=m, name='s1')
+    elfi.Discrepancy(partial(pois_disc, inf_above=cfg.get('inf_above')), s1, model=m, name='d')
+    return m
+
+
+def disc_value(x):
+    """integer-valued or +inf by construction of the models; anything else is a harness/implementation mismatch"""
+    x = float(x)
+    if np.isinf(x) and x > 0:
+        return None
+    if x != x or x != math.floor(x):
+        raise ValueError('discrepancy %r is neither an integer value nor +inf' % x)
+    return int(x)
+
+
+THR_TYPES = ('int', 'float', 'npfloat', 'npint')
+
+
+def thr_python(t):
+    """the threshold object handed to the implementation"""
+    if t is None:
+        return np.inf
+    v, ty = t['v'], t['ty']
+    if ty == 'int':
+        return int(v)
+    if ty == 'npint':
+        return np.int64(v)
+    if ty == 'npfloat':
+        return np.float64(v)
+    return float(v)
+
+
+def thr_model(t):
+    """integer discrepancies: d <= t  iff  d <= floor(t)"""
+    return None if t is None else int(math.floor(float(t['v'])))
+
+
 class C01(PropCheck):
     pid = 'C01'
     header = ('From Coq Require Import List ZArith NArith Bool PrimFloat.\n'
               'From Elfi Require Import Base.Harness Sched.Sched Sched.Reject.\nImport ListNotations.\n')
-    case_type = 'Reject.case'
-    preds = (('Reject.agree', 'agree'), ('Reject.ok', 'ok'))
-    chunk = 120
-    case_timeout = 30
+    case_type = 'Reject.hcase'
+    preds = (('Reject.hagree', 'agree'), ('Reject.hok', 'ok'))
+    chunk = 60
+    case_timeout = 60
     build_targets = ('Sched/Reject.vo',)
-    rule = ('real Rejection.sample on small models (uniform / hierarchical priors, vector simulator output, integer-valued '
-            'discrepancies from 3-8 levels so that ties are forced, optional infinite discrepancies), all three objective forms '
-            '(threshold | quantile | n_sim), batch sizes 1-7 not dividing budgets, n_samples <,=,> batch_size, max_parallel 1-4 under '
-            'a scripted client; an OutputPool storing every requested output of every consumed batch is the independent record; '
-            'non-trivial = a tie at the cut or an infinite discrepancy among the consumed draws or a budget not divisible by the '
-            'batch size; distinct by full configuration')
+    rule = ('histories of 1-4 consecutive runs (sample with/without progress bar | infer | set_objective + iterate + extract_result, '
+            'pending batches cancelled or left to the next set_objective) on ONE real Rejection instance, every run with its own '
+            'n_samples and objective (threshold | quantile | n_sim | default), the pool kept (later runs re-read stored batches) or '
+            'emptied between runs; small models: uniform / hierarchical priors, vector simulator output, gaussian simulator with '
+            'integer-valued discrepancies from 2-8 levels or Poisson-count simulator with |count - observed| (ties forced, exact 0 '
+            'attainable), optional +inf discrepancy on part of the parameter space (inf_above 0-3, so that fewer than n_samples '
+            'finite draws exist); thresholds: 0 / 0.0 / -0.0 / values between and equal to attained discrepancies / 1e-9 / 1e-300 / '
+            '+inf, as python int, float, numpy int64 and float64; batch sizes 1-7 not dividing budgets, n_samples <,=,> batch_size, '
+            'max_parallel 1-4 under a scripted client; the record of what a run consumed = the batches the scripted client handed '
+            'out in that run (by batch index) read from an OutputPool storing every requested output; every run compared with the '
+            'model run on the instance state left by the earlier runs and judged by `ok` against its own record; earlier results must '
+            'stay bit-identical after later runs; non-trivial = some run has a tie at the cut, an infinite discrepancy among the '
+            'consumed draws, a budget not divisible by the batch size, a boundary threshold, or the history has >1 run; distinct by '
+            'full configuration')
     trusted = ('np.lexsort is a stable sort (the model uses a stable insertion sort); float arithmetic of the batch estimator is '
-               'modelled bit-exactly in PrimFloat',)
+               'modelled bit-exactly in PrimFloat',
+               'thresholds reach the model as floor(threshold): every discrepancy of the harness models is an integer value or +inf '
+               '(checked per draw), for which d <= t iff d <= floor(t)')
+
+    # ---- generation ------------------------------------------------------------------------------------
+    def gen_run(self, r, b, cfg):
+        ns = r.choice([1, 2, 3, 4, 6, 9])
+        form = r.choice(['threshold', 'threshold', 'quantile', 'n_sim', 'n_sim', 'default'])
+        run = dict(n=ns, form=form, drive=r.choice(['sample', 'sample', 'sample_bar', 'infer', 'iterate']),
+                   cancel=r.random() < 0.5)
+        if form == 'default':
+            if ns * 100 > 400:
+                form = run['form'] = 'quantile'
+            else:
+                run['quantile'] = 0.01
+        if form == 'threshold':
+            u = r.random()
+            top = cfg['inf_above'] if cfg['inf_above'] is not None else 3
+            if u < 0.3:
+                t = dict(v=r.choice([0, 0, 0.0, -0.0]), ty=r.choice(THR_TYPES))           # exact matches only
+            elif u < 0.45:
+                t = dict(v=r.choice([1e-9, 1e-300, 0.5, 0.999999]), ty='float')           # below the first positive level
+            elif u < 0.8:
+                t = dict(v=r.choice([1, 2, 3, 4]), ty=r.choice(THR_TYPES))                # an attained value
+            elif u < 0.9:
+                t = dict(v=r.choice([1.5, 2.25, 0.75, 3.000001]), ty=r.choice(['float', 'npfloat']))
+            elif cfg['inf_above'] is not None:
+                t = None if r.random() < 0.6 else dict(v=top, ty=r.choice(THR_TYPES))     # +inf / the largest finite level
+            else:
+                t = dict(v=r.choice([1, 2]), ty='int')
+            if t is not None and t['ty'] in ('int', 'npint'):
+                t['v'] = int(math.floor(t['v']))
+            run['threshold'] = t
+        elif form == 'quantile':
+            run['quantile'] = r.choice([0.5, 0.25, 0.1, 0.3, 0.2, 0.34, 1.0])
+        elif form == 'n_sim':
+            run['n_sim'] = ns + r.randint(0, 4 * b + 3)
+        return run
 
     def generate(self):
-        n = 220 if self.tier == 'quick' else 3500
+        n = 260 if self.tier == 'quick' else 4200
         r = self.rng
         for i in range(n):
             b = r.choice([1, 2, 3, 4, 5, 7])
-            ns = r.choice([1, 2, 3, 4, 6, 9])
-            levels = r.choice([2, 3, 4, 8])
-            form = r.choice(['threshold', 'quantile', 'n_sim', 'n_sim'])
-            cfg = dict(two_params=r.random() < 0.4, width=r.choice([1, 2, 3]), levels=levels,
-                       inf_above=(r.choice([1, 2, 3]) if r.random() < 0.4 else None))
-            case = dict(cfg=cfg, b=b, n=ns, form=form, seed=r.randrange(2 ** 31), maxp=r.choice([1, 1, 2, 3, 4]),
-                        mode=r.choice(['lazy', 'eager', 'shuffle']), oracle=[r.random() < 0.5 for _ in range(60)])
-            if form == 'threshold':
-                case['threshold'] = r.choice([1, 2, 3, 4])
-                if cfg['inf_above'] is not None and r.random() < 0.2:
-                    case['threshold'] = None  # python inf
-            elif form == 'quantile':
-                case['quantile'] = r.choice([0.5, 0.25, 0.1, 0.3, 0.2, 0.34, 1.0])
-            else:
-                case['n_sim'] = ns + r.randint(0, 4 * b + 3)
-            self.bump('form=' + form)
+            kind = r.choice(['normal', 'normal', 'poisson'])
+            cfg = dict(kind=kind, two_params=r.random() < 0.4, width=r.choice([1, 2, 3]), levels=r.choice([2, 3, 4, 8]),
+                       inf_above=(r.choice([0, 1, 1, 2, 3]) if r.random() < 0.5 else None), obs=r.choice([0, 1, 2]))
+            n_runs = r.choice([1, 1, 2, 2, 3, 4])
+            case = dict(cfg=cfg, b=b, seed=r.randrange(2 ** 31), maxp=r.choice([1, 1, 2, 3, 4]),
+                        mode=r.choice(['lazy', 'eager', 'shuffle']), oracle=[r.random() < 0.5 for _ in range(60 * n_runs)],
+                        keep_pool=r.random() < 0.5, runs=[self.gen_run(r, b, cfg) for _ in range(n_runs)])
+            self.bump('runs=%d' % n_runs)
             self.bump('b=%d' % b)
+            self.bump('kind=' + kind)
             self.bump('inf=%s' % (cfg['inf_above'] is not None))
+            self.bump('keep_pool=%s' % case['keep_pool'])
+            for k, run in enumerate(case['runs']):
+                self.bump('form=' + run['form'])
+                self.bump('drive=' + run['drive'])
+                if run['form'] == 'threshold':
+                    t = run['threshold']
+                    self.bump('thr=' + ('inf' if t is None else 'zero' if float(t['v']) == 0 else
+                                        'below1' if float(t['v']) < 1 else 'attained' if float(t['v']) == int(t['v']) else 'between'))
+                    if t is not None:
+                        self.bump('thr_type=' + t['ty'])
+                if k > 0:
+                    prev = case['runs'][k - 1]
+                    self.bump('n_vs_prev=%s' % ('<' if run['n'] < prev['n'] else '=' if run['n'] == prev['n'] else '>'))
+                    self.bump('form_after=%s>%s' % (prev['form'], run['form']))
             yield case
+
+    # ---- the implementation ----------------------------------------------------------------------------
+    def one_run(self, rej, run):
+        kw = {}
+        if run['form'] == 'threshold':
+            kw['threshold'] = thr_python(run['threshold'])
+        elif run['form'] == 'quantile':
+            kw['quantile'] = run['quantile']
+        elif run['form'] == 'n_sim':
+            kw['n_sim'] = run['n_sim']
+        drive = run['drive']
+        if drive == 'sample':
+            return rej.sample(run['n'], bar=False, **kw)
+        if drive == 'sample_bar':
+            with contextlib.redirect_stdout(io.StringIO()):
+                return rej.sample(run['n'], **kw)
+        if drive == 'infer':
+            return rej.infer(run['n'], bar=False, **kw)
+        rej.set_objective(run['n'], **kw)
+        while not rej.finished:
+            rej.iterate()
+        res = rej.extract_result()
+        if run['cancel']:
+            rej.batches.cancel_pending()
+        return res
 
     def run_impl(self, case):
         import elfi
         from elfi.store import OutputPool
-        m = rejmodels.build(case['cfg'])
+        m = build_model(case['cfg'])
         names = ['d'] + m.parameter_names + ['sim', 's1']
         pool = OutputPool(names)
         client = ScriptedClient(oracle=case['oracle'], mode=case['mode'], num_cores=1, seed=case['seed'])
         elfi.set_client(client)
+        runs_out = []
+        kept = []
+        leftovers = []
         try:
             rej = elfi.Rejection(m['d'], batch_size=case['b'], seed=case['seed'], output_names=['sim', 's1'],
                                  pool=pool, max_parallel_batches=case['maxp'])
             client.handler = rej.batches
-            kw = {}
-            if case['form'] == 'threshold':
-                kw['threshold'] = np.inf if case['threshold'] is None else float(case['threshold'])
-            elif case['form'] == 'quantile':
-                kw['quantile'] = case['quantile']
-            else:
-                kw['n_sim'] = case['n_sim']
-            res = rej.sample(case['n'], bar=False, **kw)
+            for run in case['runs']:
+                ev0 = len(client.events)
+                res = self.one_run(rej, run)
+                got = [e[2] for e in client.events[ev0:] if e[0] == 'get']
+                if got != list(range(len(got))):
+                    raise AssertionError('batches were not handed out in succession 0,1,2,...: %r' % got)
+                if run['drive'] != 'iterate' or run['cancel']:
+                    leftovers.append(client.leftover())
+                # the independent record of this run: the batches the client handed out, as stored in the pool
+                codes = {}
+                table = []
+                for bi in got:
+                    batch = pool.get_batch(bi)
+                    rows = []
+                    for i in range(case['b']):
+                        key = rejmodels.row_key(batch, names, i)
+                        code = codes.setdefault(key, len(codes))
+                        rows.append((disc_value(batch['d'][i]), code))
+                    table.append(rows)
+                lens = sorted({len(np.asarray(res.outputs[k])) for k in names})
+                keys = [rejmodels.row_key(res.outputs, names, i) for i in range(lens[0])]
+                out_rows = [(disc_value(res.outputs['d'][i]), codes.get(keys[i])) for i in range(lens[0])]
+                kept.append((res, keys))
+                runs_out.append(dict(table=table, rows=out_rows, threshold=disc_value(res.threshold), n_sim=int(res.n_sim),
+                                     n_batches=int(res.n_batches), lens=lens,
+                                     discs=[d for d, _ in out_rows]))
+                if not case['keep_pool']:
+                    for st in pool.stores.values():
+                        if st is not None:
+                            st.clear()
+            rej.batches.cancel_pending()
+            leftovers.append(client.leftover())
         finally:
             import elfi.clients.native as native
             elfi.set_client(native.Client())
-        # the independent record
-        codes = {}
-        table = []
-        nb = len(pool)
-        for bi in range(nb):
-            batch = pool.get_batch(bi)
-            rows = []
-            for i in range(case['b']):
-                key = rejmodels.row_key(batch, names, i)
-                code = codes.setdefault(key, len(codes))
-                rows.append((rejmodels.disc_value(batch['d'][i]), code))
-            table.append(rows)
-        out_rows = []
-        for i in range(len(res.outputs['d'])):
-            key = rejmodels.row_key(res.outputs, names, i)
-            out_rows.append((rejmodels.disc_value(res.outputs['d'][i]), codes.get(key)))
-        return dict(table=table, rows=out_rows, threshold=rejmodels.disc_value(res.threshold), n_sim=int(res.n_sim),
-                    n_batches=int(res.n_batches), leftover=client.leftover(), problems=client.problems,
-                    discs=[rejmodels.disc_value(x) for x in res.outputs['d']])
+        # results of earlier runs after the later ones
+        changed = []
+        for k, (res, keys) in enumerate(kept):
+            now = [rejmodels.row_key(res.outputs, names, i) for i in range(len(np.asarray(res.outputs['d'])))]
+            if now != keys:
+                changed.append(k)
+        return dict(runs=runs_out, leftover=[l for l in leftovers if l], problems=client.problems, changed=changed)
 
     def py_check(self, case, out):
         f = []
         if out['leftover']:
-            f.append(('no_task_left', 'tasks left in the client: %r' % out['leftover']))
+            f.append(('no_task_left', 'tasks left in the client after a finished run: %r' % out['leftover']))
         if out['problems']:
             f.append(('client_protocol', '; '.join(out['problems'][:2])))
-        if any(code is None for _, code in out['rows']):
-            f.append(('row_consistency', 'a returned row is not one of the consumed draws: %r' % out['rows']))
+        for k, ro in enumerate(out['runs']):
+            if any(code is None for _, code in ro['rows']):
+                f.append(('row_consistency', 'run %d: a returned row is not one of the draws this run consumed: %r' % (k, ro['rows'])))
+            if len(ro['lens']) != 1:
+                f.append(('row_consistency', 'run %d: returned outputs have different lengths %r' % (k, ro['lens'])))
+        if out['changed']:
+            f.append(('result_stable', 'the returned outputs of run(s) %r changed during later runs of the instance' % out['changed']))
         return f
 
     def nontrivial(self, case, out):
-        discs = [d for rows in out['table'] for d, _ in rows]
-        tie = len(out['discs']) > 0 and discs.count(out['discs'][-1]) > 1
-        has_inf = any(d is None for d in discs)
-        nondiv = case['form'] == 'n_sim' and case['n_sim'] % case['b'] != 0
-        if not (tie or has_inf or nondiv):
+        hit = len(case['runs']) > 1
+        for run, ro in zip(case['runs'], out['runs']):
+            discs = [d for rows in ro['table'] for d, _ in rows]
+            tie = len(ro['discs']) > 0 and discs.count(ro['discs'][-1]) > 1
+            has_inf = any(d is None for d in discs)
+            nondiv = run['form'] == 'n_sim' and run['n_sim'] % case['b'] != 0
+            boundary = run['form'] == 'threshold' and run['threshold'] is not None and float(run['threshold']['v']) < 1
+            hit = hit or tie or has_inf or nondiv or boundary
+        if not hit:
             return None
         return json.dumps({k: v for k, v in case.items() if k != 'oracle'}, sort_keys=True)
 
-    def to_coq(self, case, out):
-        if case['form'] == 'threshold':
-            form = '(ByThreshold %s %s)' % (cdisc(case['threshold']), cnat(case['maxp']))
-        elif case['form'] == 'quantile':
-            form = '(ByQuantile %s)' % cfloat(case['quantile'])
+    def run_to_coq(self, case, run, ro):
+        if run['form'] == 'threshold':
+            form = '(ByThreshold %s %s)' % (cdisc(thr_model(run['threshold'])), cnat(case['maxp']))
+        elif run['form'] in ('quantile', 'default'):
+            form = '(ByQuantile %s)' % cfloat(run['quantile'])
         else:
-            form = '(ByNsim %s)' % cz(case['n_sim'])
-        table = clist([clist(['{| d_disc := %s; d_code := %s |}' % (cdisc(d), cn(c)) for d, c in rows]) for rows in out['table']])
-        rows = clist(['None' if c is None else '(Some {| d_disc := %s; d_code := %s |})' % (cdisc(d), cn(c)) for d, c in out['rows']])
+            form = '(ByNsim %s)' % cz(run['n_sim'])
+        table = clist([clist(['{| d_disc := %s; d_code := %s |}' % (cdisc(d), cn(c)) for d, c in rows]) for rows in ro['table']])
+        rows = clist(['None' if c is None else '(Some {| d_disc := %s; d_code := %s |})' % (cdisc(d), cn(c)) for d, c in ro['rows']])
         return ('{| c_n := %s; c_b := %s; c_form := %s; c_table := %s; c_rows := %s; c_threshold := %s; c_n_sim := %s; c_n_batches := %s |}'
-                % (cnat(case['n']), cnat(case['b']), form, table, rows, cdisc(out['threshold']), cnat(out['n_sim']), cnat(out['n_batches'])))
+                % (cnat(run['n']), cnat(case['b']), form, table, rows, cdisc(ro['threshold']), cbig(ro['n_sim']), cbig(ro['n_batches'])))
+
+    def to_coq(self, case, out):
+        runs = clist([self.run_to_coq(case, run, ro) for run, ro in zip(case['runs'], out['runs'])], sep=';\n   ')
+        return '{| h_b := %s; h_runs := %s |}' % (cnat(case['b']), runs)
 
 
 if __name__ == '__main__':
